@@ -311,6 +311,10 @@ class Intrinsics:
         return range(*args)
 
     def b_enumerate(self, P, it, start=0):
+        from . import mapseq   # mapseq (C19x)
+        r = mapseq.enumerate_seq(P, it, start)
+        if r is not seqs.NOT_HANDLED:
+            return r
         return [(i + start, x) for i, x in enumerate(P.iterate(it))]
 
     def b_zip(self, P, *its, strict=False):
@@ -324,9 +328,17 @@ class Intrinsics:
         return list(reversed(P.iterate(it)))
 
     def b_tuple(self, P, it=()):
+        from . import mapseq   # mapseq (C19x)
+        r = mapseq.copy_seq(P, it, 'tuple')
+        if r is not seqs.NOT_HANDLED:
+            return r
         return tuple(P.iterate(it))
 
     def b_list(self, P, it=()):
+        from . import mapseq   # mapseq (C19x)
+        r = mapseq.copy_seq(P, it, 'list')
+        if r is not seqs.NOT_HANDLED:
+            return r
         return list(P.iterate(it))
 
     def b_set(self, P, it=()):
@@ -1263,6 +1275,11 @@ class Intrinsics:
         if is_sym_real(x):
             return self.ex.frac_part(P, x, 'numerator')
         raise Unsupported(f'frac_num({x!r})')
+
+    # identity of objects taken from symbolic sequences (C19x, pyvc/mapseq.py)
+    def s_same_elem_obj(self, P, a, b):
+        from . import mapseq
+        return mapseq.same_elem_obj(P, a, b)
 
     # derived sequences (C04, pyvc/derivedseq.py)
     def s_same_elem(self, P, a, i, b, j):
